@@ -122,3 +122,18 @@ PROPS["C16"] = dict(
                 "change only the addressed index; get_rgb / get_color equal the abstract resolution pal_rgb; the 6-bit codec (from_63 / "
                 "as_vec_63) equals pal6_expand / pal6_reduce entry-wise and lemma_pal6_idempotent proves idempotence for all 6-bit values.",
 )
+
+import scans
+PROPS["C10"] = dict(
+    units=[],
+    kani_quick=["c10_xbin_transmute_domain", "c10_hex_table_len"],
+    scans=[scans.scan_unsafe_sites],
+    engine="site scan + kani (KC); the unchecked conversions inside functions under contract carry their safety condition as a Verus precondition",
+    technique="safety preconditions of unchecked conversions as proof obligations (Kani complete-finite on the operand expressions) plus a token scan that no unchecked-conversion site exists outside the reviewed, pinned ones",
+    trusted_base=COMMON_TRUST[:1] + ["safe Rust cannot construct an invalid char or String: the property can only fail at unsafe conversion sites",
+        "the scan's tokenizer (vx/rustlex.py) and its list of unsafe conversion identifiers",
+        "parse_hex_macro_sequence: `first`, `second` come from HEX_TABLE.iter().position(..): the bound < 16 is argued from the table length (proved by c10_hex_table_len), the enclosing string-processing function is not under contract"],
+    unverified_remainder=["`unsafe impl Send/Sync for DrawExecutor` in igs/paint.rs (not a conversion; outside this property)"],
+    explanation="After the repairs recorded in known_findings.txt only two unchecked conversions remain in non-test code; each is pinned by the scan and "
+                "its operand domain is decided by a loop-free Kani harness over all inputs. Any new or modified unchecked-conversion site fails the scan.",
+)
